@@ -141,22 +141,28 @@ def tlc_lines(out_path, prefix):
 TRACE_CFG = "SPECIFICATION Spec\nPOSTCONDITION AllConsumed\nCHECK_DEADLOCK FALSE\n"
 
 
-def trace_validate(module, path, name, timeout=3600, xmx="6g", extra_states=None):
+def trace_validate(module, path, name, timeout=3600, xmx="6g", extra_states=None, marker=False):
     """Validate an ndjson trace with spec/<module>.tla.  Returns (events, bad) where bad is
     the list of (1-based line, event) that the specification rejects.  A trace that is not
     consumed to its end is a tool error (the trace spec itself is stuck)."""
     r = tlc(module, TRACE_CFG, name, workers=1, deque=True, xss=True, xmx=xmx,
             env_extra={"TRACE": path}, timeout=timeout)
     bad = []
+    consumed = None
     with open(r["out_path"], errors="replace") as f:
         for line in f:
             if line.startswith('"MISMATCH '):
                 bad.append(int(json.loads(line).split()[1]))
             if line.startswith('"UNCONSUMED'):
                 raise ToolError("trace %s not consumed: %s" % (path, line))
+            if line.startswith('"CONSUMED '):
+                consumed = int(json.loads(line).split()[1])
     events = [json.loads(x) for x in open(path)]
     extra = extra_states(events) if extra_states else 0
-    if r["distinct"] != len(events) + 1 + extra:
+    if marker:
+        if consumed != len(events):
+            raise ToolError("trace %s: %d events but consumed %s" % (path, len(events), consumed))
+    elif r["distinct"] != len(events) + 1 + extra:
         raise ToolError("trace %s: %d events but %d states" % (path, len(events), r["distinct"]))
     return events, [(i, events[i - 1]) for i in bad], r
 
